@@ -20,6 +20,12 @@ import (
 // exist contribute nothing and zero storage words contribute nothing, so that looking at an address
 // or a key for the first time does not change the digest.
 func worldDigest(st *state.StateDB, addrs map[common.Address]bool, keys map[common.Address]map[common.Hash]bool) string {
+	return worldDigestX(st, addrs, keys, nil)
+}
+
+// worldDigestX: as worldDigest, leaving out the nonce of one account (a CREATE that fails after its pre-flight checks
+// legitimately keeps the creator's nonce increment; everything else must be as before).
+func worldDigestX(st *state.StateDB, addrs map[common.Address]bool, keys map[common.Address]map[common.Hash]bool, skipNonce *common.Address) string {
 	var list []common.Address
 	for a := range addrs {
 		list = append(list, a)
@@ -30,7 +36,11 @@ func worldDigest(st *state.StateDB, addrs map[common.Address]bool, keys map[comm
 		if !st.Exist(a) {
 			continue
 		}
-		fmt.Fprintf(h, "%x|%s|%d|%x|%v;", a, st.GetBalance(a), st.GetNonce(a), st.GetCodeHash(a), st.HasSuicided(a))
+		nonce := st.GetNonce(a)
+		if skipNonce != nil && a == *skipNonce {
+			nonce = 0
+		}
+		fmt.Fprintf(h, "%x|%s|%d|%x|%v;", a, st.GetBalance(a), nonce, st.GetCodeHash(a), st.HasSuicided(a))
 		ks := map[common.Hash]bool{}
 		for k := range keys[a] {
 			ks[k] = true
@@ -86,6 +96,7 @@ type oFrame struct {
 	providers []bool      // provider queries made directly by this frame: true = pre
 	hasPre    bool
 	preFailed bool
+	preErr    string // error text of the failing pre-join-point Aspect
 	lastPre   uint64 // gas the last pre-join-point Aspect left
 	steps     int    // instructions executed by the frame's own code
 	firesPre  int    // Aspect invocations of the pre join point that reached the Aspect runtime
@@ -147,6 +158,15 @@ func frameOracles(cs *exCase, run *exRun, transfers []transferObs, digest0, dige
 	tree := tr.CallTree()
 	if tree.Current() != nil {
 		add("C07", "a call is left open after the top-level return (node %d)", tree.Current().Index)
+	}
+	// C07: the recorded tree of ONE top-level call: dense indices, one parent with a smaller index listing the node among its
+	// children in increasing order, lookup by index — and only the top-level call has no parent
+	out = append(out, treeStructure(tree)...)
+	for i := uint64(1); (cs.Entry == 0 || cs.Entry >= 4) && tree.FindCall(i) != nil; i++ { // CallCode/DelegateCall/StaticCall entry points open no node
+		if tree.FindCall(i).Parent == nil {
+			add("C07", "node %d was entered inside the single top-level call but has no parent", i)
+			break
+		}
 	}
 	if run.err != nil && cs.Entry < 4 && digest0 != digest1 {
 		add("C04", "the top-level frame failed (%v) but the world state changed", run.err)
@@ -297,6 +317,17 @@ func frameOracles(cs *exCase, run *exRun, transfers []transferObs, digest0, dige
 					add("C06", "call to %x: the frame failed (%s) but hands back %d gas", f.open.To[17:], e.Err, f.open.Gas-e.Used)
 				}
 			}
+			// C06: the gas a failing pre join point consumed is charged to the call it surrounds: the frame hands back what
+			// the Aspect left (nothing when it ran out of gas)
+			if f.hasPre && f.preFailed && f.lastPre <= f.open.Gas {
+				want := f.open.Gas - f.lastPre
+				if f.preErr == "out of gas" {
+					want = f.open.Gas
+				}
+				if e.Used != want {
+					add("C06", "call to %x: the pre join point failed (%s) leaving %d of %d gas, but the frame reports %d gas used", f.open.To[17:], f.preErr, f.lastPre, f.open.Gas, e.Used)
+				}
+			}
 			if f.hasPre && !f.preFailed && f.steps > 0 && f.firstGas != f.lastPre {
 				add("C06", "callee %x starts with %d gas, its pre join point left %d", f.open.To[17:], f.firstGas, f.lastPre)
 			}
@@ -340,7 +371,7 @@ func frameOracles(cs *exCase, run *exRun, transfers []transferObs, digest0, dige
 				f := stack[len(stack)-1]
 				f.hasPre, f.lastPre = true, e.ResGas
 				if e.HasErr {
-					f.preFailed = true
+					f.preFailed, f.preErr = true, e.Err
 				}
 			}
 		case "state":
@@ -411,6 +442,9 @@ func frameOracles(cs *exCase, run *exRun, transfers []transferObs, digest0, dige
 							failed := x.Stack[len(x.Stack)-1].IsZero()
 							if failed && isCall && sameUniverse(x.Digest, e.Digest) && x.Digest != e.Digest {
 								add("C04", "the call at pc %d of %x failed (0 pushed) but the world state changed", e.Pc, e.Self[17:])
+							}
+							if failed && isCreate && e.Digest2 != "" && x.Digest2 != "" && sameUniverse(x.Digest2, e.Digest2) && x.Digest2 != e.Digest2 {
+								add("C04", "the create at pc %d of %x failed (0 pushed) but the world state changed (beyond the creator's nonce)", e.Pc, e.Self[17:])
 							}
 						}
 						break
